@@ -143,7 +143,7 @@ def conforms(spec: Spec, r, _depth=0, closed=False) -> tuple[bool, str]:
     if k in ("wrap",):
         return conforms(spec.kids[0], r, d, closed)
     if k == "rec":
-        return conforms(spec.info["target"](), r, d)
+        return conforms(spec.info["target"](), r, d, closed)
     if k == "scalar":
         cls = spec.info["cls"]
         if spec.info["name"] == "float":
